@@ -161,7 +161,9 @@ def run(module, cfg_text=None, cfg_file=None, workdir=None, workers=None, args=(
                 bad = pat
                 break
         if bad or (p.returncode not in (0, 12, 13) and res.violated is None):
-            raise TlcError("TLC failed on %s (rc=%s, %s):\n%s" % (module, p.returncode, bad, p.stdout[-4000:]))
+            first = p.stdout.find("Error:")
+            head = p.stdout[first:first + 800] + "\n...\n" if 0 <= first < len(p.stdout) - 4000 else ""
+            raise TlcError("TLC failed on %s (rc=%s, %s):\n%s%s" % (module, p.returncode, bad, head, p.stdout[-4000:]))
     if own:
         res.workdir = None
         shutil.rmtree(workdir, ignore_errors=True)
